@@ -552,6 +552,12 @@ def _assert_invariant(contract: Contract, instance: Any) -> None:
     else:
         check = contract.condition()
 
+    if inspect.iscoroutine(check):
+        raise ValueError(
+            "Unexpected coroutine resulting from the invariant condition {}: "
+            "async conditions are not possible in invariants.".format(contract.condition)
+        )
+
     if not_check(check=check, contract=contract):
         raise _create_violation_error(
             contract=contract, resolved_kwargs={"self": instance}
